@@ -19,6 +19,10 @@ type Shape struct {
 	Pess bool
 	Ops  []txnh.Op
 	Seed []string // key,value pairs committed before
+	// LockOnlyPrimary: the primary is a lock-only key of an optimistic transaction. unistore does not
+	// keep a commit record for such a key, so a re-sent primary Commit is answered "lock not found"
+	// instead of success (TiKV is idempotent there): fault scenarios skip this shape on unistore.
+	LockOnlyPrimary bool
 }
 
 // Shapes returns the victim shapes (1-3 keys, put/delete/insert/lock-only, both lock modes).
@@ -28,7 +32,7 @@ func Shapes(thorough bool) []Shape {
 		{Name: "set(a)", Ops: []txnh.Op{op("set", "a"), c}},
 		{Name: "set(a);set(b)", Ops: []txnh.Op{op("set", "a"), op("set", "b"), c}},
 		{Name: "set(a);delete(b);insert(c)", Ops: []txnh.Op{op("set", "a"), op("delete", "b"), op("insert", "c"), c}, Seed: []string{"b", "base"}},
-		{Name: "lock(a);set(b)", Ops: []txnh.Op{op("lock", "a"), op("set", "b"), c}},
+		{Name: "lock(a);set(b)", Ops: []txnh.Op{op("lock", "a"), op("set", "b"), c}, LockOnlyPrimary: true},
 		{Name: "P:lock(a);set(a)", Pess: true, Ops: []txnh.Op{op("lock", "a"), op("set", "a"), c}},
 		{Name: "P:lock(c);set(c);lock(a);set(a)", Pess: true, Ops: []txnh.Op{op("lock", "c"), op("set", "c"), op("lock", "a"), op("set", "a"), c}},
 	}
